@@ -84,3 +84,16 @@ package base
 //@ func BufferReadWriter.Bytes
 //@   requires b != nil
 //@   ensures result == b.buf.buf
+
+// ---- names and paths (property C11) ------------------------------------------------------------------
+//
+// escapes(n): joining the name n under a directory yields a path outside that directory. It is not
+// defined here; the one fact used about it is the lemma attached to filepath.Clean in
+// contracts/externs/strings_path.spec: a cleaned, relative name escapes exactly when it is ".." or
+// starts with "../" (filepath.Clean leaves ".." components only at the front of a relative path).
+// Create must establish !escapes(name) for every name it accepts; every path of the entry is
+// the state directory joined with the name (and a fixed file name or metadata suffix).
+//@ func localFileEntryFactory.Create
+//@   nopanic
+//@   ensures stays_inside: result1 == nil ==> !escapes(name) && !hasPrefix(name, "/")
+//@   ensures rejected: result1 != nil ==> result0 == nil
